@@ -198,14 +198,20 @@ def boxedFromLeSlice (bytes : List Nat) (bp : Nat) : Except DecodeError (List Na
     if bp < bitLen (val ret) then .error .Precision else .ok ret
 
 /-- `BoxedUint::from_be_hex(hex, bits_precision) -> CtOption`: `none` = the length `assert!` fails;
-    `some (limbs, is_some)`.  NOTE `nlimbs = bits_precision / Limb::BITS` rounds DOWN and the value is
-    built with the struct literal, so `bits_precision < 64` yields a zero-limb value. -/
+    `some (limbs, is_some)`.  NOTE `nlimbs = bits_precision / Limb::BITS` rounds DOWN, so for
+    `bits_precision < 64` the decoded vector is empty (padded by `boxedFromBeHexApi`). -/
 def boxedFromBeHex (hex : List Nat) (bp : Nat) : Option (List Nat × Bool) :=
   let nlimbs := bp / 64
   if hex.length = 16 * nlimbs then
     let d := decodeHexBytes hex
     some (((chunks8 nlimbs d.1).map wordFromBeBytes).reverse, d.2 = 0)
   else none
+
+/-- the value `BoxedUint::from_be_hex` returns since /repo fix 01d03c6: the decoded limb vector goes
+    through `From<Vec<Limb>>` (`Self::from(res)`), so a precision below one limb gives ONE zero limb
+    instead of a zero-limb value.  `boxedFromBeHex` above is the decoding loop itself. -/
+def boxedFromBeHexApi (hex : List Nat) (bp : Nat) : Option (List Nat × Bool) :=
+  (boxedFromBeHex hex bp).map fun r => (boxedOfVec r.1, r.2)
 
 /-- `BoxedUint::widen`; `none` = `assert!(at_least_bits_precision >= self.bits_precision())` fails -/
 def boxedWiden (l : List Nat) (bp : Nat) : Option (List Nat) :=
